@@ -5,11 +5,12 @@
 # passes without the change and fails with it; then runs the given checks against the changed tree.
 # The worktree and its build output are removed at the end.
 set -u
+HERE="$(cd "$(dirname "$0")/.." && pwd)"
 D="$(readlink -f "$1")"; TIER="$2"; shift 2
 export GOFLAGS=-mod=mod GOPROXY=off GOSUMDB=off GOTOOLCHAIN=local
 W="$(mktemp -d /tmp/seedv-XXXXXX)"; rmdir "$W"
 git -C /repo worktree add -q --detach "$W" HEAD || exit 2
-trap 'git -C /repo worktree remove --force "$W" >/dev/null 2>&1; git -C /repo worktree prune; rm -rf /verif/replays' EXIT
+trap 'git -C /repo worktree remove --force "$W" >/dev/null 2>&1; git -C /repo worktree prune; rm -rf "$HERE/replays"' EXIT
 name="$(basename "$D")"
 RACE=""
 case "$name" in C12*) RACE="-race" ;; esac
@@ -35,7 +36,7 @@ rm -f "$W.demo.log" "$W.suite.log"
 echo "SEEDED $name: demo-without-change=$([ $base -eq 0 ] && echo pass || echo FAIL) suite-with-change=$([ $suite -eq 0 ] && echo pass || echo FAIL) demo-with-change=$([ $with -ne 0 ] && echo fails-as-intended || echo PASSES)"
 [ $base -eq 0 ] && [ $suite -eq 0 ] && [ $with -ne 0 ] || { echo "SEEDED $name: NOT CONFIRMED"; exit 3; }
 for id in "$@"; do
-	out="$(VERIF_REPO="$W" timeout 1800 "${VERIF_RUN:-/verif/run.sh}" check "$id" "$TIER" 2>&1)"; rc=$?
+	out="$(VERIF_REPO="$W" timeout 1800 "${VERIF_RUN:-$HERE/run.sh}" check "$id" "$TIER" 2>&1)"; rc=$?
 	n=$(printf '%s\n' "$out" | grep -c '^VIOLATION')
 	first=$(printf '%s\n' "$out" | grep -A1 '^VIOLATION' | sed -n 2p | cut -c1-260)
 	echo "SEEDED $name check=$id tier=$TIER exit=$rc violations=$n :: $first"
